@@ -3,43 +3,6 @@ package ergo
 // C08: ready/blocked mean what the manual says; claim takes the oldest ready task.
 // Oracle: the two sentences of the statement as first-order formulas over the graph.
 
-func zzDoneOrCanceled(s string) bool { return s == "done" || s == "canceled" }
-
-// zzReadySpec: todo, unclaimed, every task it depends on is done/canceled/pruned(absent),
-// and every epic its epic depends on has only done or canceled children.
-func zzReadySpec(g *Graph, t *Task) bool {
-	if t.State != "todo" || t.ClaimedBy != "" {
-		return false
-	}
-	for dep := range g.Deps[t.ID] {
-		other := g.Tasks[dep]
-		if other != nil && !zzDoneOrCanceled(other.State) {
-			return false
-		}
-	}
-	if t.EpicID != "" {
-		for depEpic := range g.Deps[t.EpicID] {
-			e := g.Tasks[depEpic]
-			if e == nil || !e.IsEpic {
-				continue
-			}
-			for _, child := range g.Tasks {
-				if child.EpicID == depEpic && !zzDoneOrCanceled(child.State) {
-					return false
-				}
-			}
-		}
-	}
-	return true
-}
-
-func zzBlockedSpec(g *Graph, t *Task) bool {
-	if t.State == "blocked" {
-		return true
-	}
-	return t.State == "todo" && t.ClaimedBy == "" && !zzReadySpec(g, t)
-}
-
 func zzC08Graph(spec string) *Graph {
 	g := &Graph{}
 	zzHavoc("g", g, spec)
